@@ -128,13 +128,115 @@ theorem cancelled_can_finish (s : DSt) (hp : s.phase = .running) (hc : s.cancell
 
 /-! ### every cancelled schedule is short -/
 
-/-- the number of steps a cancelled driver can still take -/
+/-- the open sessions of the files in flight -/
+def openSessions (s : DSt) : Nat := (s.inflight.map (fun p => p.2.length)).sum
+
+/-- the open sessions that can still be closed one by one: those of the first entry of every index
+    (`sessionsOf` looks at the first entry only; in reachable states the indices in flight are
+    pairwise distinct, and this is the number of all open sessions) -/
+def openFirst (seen : List Nat) : List (Nat × List Nat) → Nat
+  | [] => 0
+  | p :: rest => (if p.1 ∈ seen then 0 else p.2.length) + openFirst (p.1 :: seen) rest
+
+theorem openFirst_le_sum (seen : List Nat) (l : List (Nat × List Nat)) :
+    openFirst seen l ≤ (l.map (fun p => p.2.length)).sum := by
+  induction l generalizing seen with
+  | nil => simp [openFirst]
+  | cons p rest ih =>
+    have := ih (p.1 :: seen)
+    simp only [openFirst, List.map_cons, List.sum_cons]
+    split <;> omega
+
+theorem openFirst_congr {seen seen' : List Nat} {l : List (Nat × List Nat)}
+    (h : ∀ p ∈ l, (p.1 ∈ seen ↔ p.1 ∈ seen')) : openFirst seen l = openFirst seen' l := by
+  induction l generalizing seen seen' with
+  | nil => rfl
+  | cons p rest ih =>
+    have h1 := h p (List.mem_cons_self ..)
+    have h2 : openFirst (p.1 :: seen) rest = openFirst (p.1 :: seen') rest := by
+      apply ih
+      intro q hq
+      have := h q (List.mem_cons_of_mem _ hq)
+      simp only [List.mem_cons, this]
+    simp only [openFirst, h1, h2]
+
+theorem openFirst_setSessions_seen {seen : List Nat} {i : Nat} (x : List Nat) (hi : i ∈ seen)
+    (l : List (Nat × List Nat)) : openFirst seen (setSessions l i x) = openFirst seen l := by
+  induction l generalizing seen with
+  | nil => rfl
+  | cons p rest ih =>
+    show openFirst seen ((if p.1 = i then (i, x) else p) :: setSessions rest i x) = _
+    by_cases hp : p.1 = i
+    · rw [if_pos hp]
+      simp only [openFirst, hp, hi, ↓reduceIte]
+      rw [ih (List.mem_cons_self ..)]
+    · rw [if_neg hp]
+      simp only [openFirst]
+      rw [ih (List.mem_cons_of_mem _ hi)]
+
+theorem openFirst_setSessions_lt {seen : List Nat} {i : Nat} {x ss : List Nat} (hi : i ∉ seen)
+    (hx : x.length < ss.length) (l : List (Nat × List Nat)) (hs : sessionsOf l i = some ss) :
+    openFirst seen (setSessions l i x) < openFirst seen l := by
+  induction l generalizing seen with
+  | nil => simp [sessionsOf] at hs
+  | cons p rest ih =>
+    obtain ⟨j, ss'⟩ := p
+    show openFirst seen ((if j = i then (i, x) else (j, ss')) :: setSessions rest i x) < _
+    simp only [sessionsOf] at hs
+    by_cases hp : j = i
+    · rw [if_pos hp] at hs ⊢
+      cases hs
+      subst hp
+      simp only [openFirst, hi, ↓reduceIte]
+      rw [openFirst_setSessions_seen x (List.mem_cons_self ..)]
+      omega
+    · rw [if_neg hp] at hs ⊢
+      simp only [openFirst]
+      have := ih (seen := j :: seen)
+        (by simp only [List.mem_cons, not_or]; exact ⟨fun e => hp e.symm, hi⟩) hs
+      omega
+
+theorem openFirst_filter_le (seen : List Nat) (i : Nat) (l : List (Nat × List Nat)) :
+    openFirst seen (l.filter (fun p => p.1 ≠ i)) ≤ openFirst seen l := by
+  induction l generalizing seen with
+  | nil => simp [openFirst]
+  | cons p rest ih =>
+    by_cases hp : p.1 = i
+    · rw [List.filter_cons_of_neg (by simp [hp])]
+      have h1 : openFirst seen (rest.filter (fun p => p.1 ≠ i)) =
+          openFirst (p.1 :: seen) (rest.filter (fun p => p.1 ≠ i)) := by
+        apply openFirst_congr
+        intro q hq
+        have hq2 : q.1 ≠ i := by simpa using (List.mem_filter.mp hq).2
+        simp only [List.mem_cons, hp]
+        constructor
+        · exact Or.inr
+        · rintro (h | h)
+          · exact absurd h hq2
+          · exact h
+      have := ih (p.1 :: seen)
+      simp only [openFirst]
+      omega
+    · rw [List.filter_cons_of_pos (by simp [hp])]
+      have := ih (p.1 :: seen)
+      simp only [openFirst]
+      omega
+
+/-- the number of steps a cancelled driver can still take: each session still open is closed at most
+    once, each file in flight ends once, each pending file is skipped once, each database is dropped
+    at most once, plus the two phase changes -/
 def cancelMeasure (c : DCfg) (s : DSt) : Nat :=
   match s.phase with
   | .creating => 0
-  | .running => s.inflight.length + s.pending.length + c.files.length + 2
+  | .running => openFirst [] s.inflight + s.inflight.length + s.pending.length + c.files.length + 2
   | .dropping => s.toDrop.length + 1
   | .finished => 0
+
+theorem cancelMeasure_running_le (c : DCfg) (s : DSt) (hp : s.phase = .running) :
+    cancelMeasure c s ≤ openSessions s + s.inflight.length + s.pending.length + c.files.length + 2 := by
+  have := openFirst_le_sum [] s.inflight
+  simp only [cancelMeasure, hp, openSessions]
+  omega
 
 theorem dstep_cancelMeasure {s s' : DSt} {l : DLabel} (h : dstep c s l = some s')
     (hc : s.cancelled = true) (hp : s.phase ≠ .creating) :
@@ -144,8 +246,8 @@ theorem dstep_cancelMeasure {s s' : DSt} {l : DLabel} (h : dstep c s l = some s'
   | beginRun => obtain ⟨hp', _, _⟩ := dstep_beginRun_inv h; exact absurd hp' hp
   | start =>
     obtain ⟨i, rest, hp', hpend, h3⟩ := dstep_start_inv h
-    rcases h3 with ⟨_, _, rfl⟩ | ⟨hc', _, _⟩
-    · simp only [cancelMeasure, hp', hpend, List.length_cons]; omega
+    rcases h3 with ⟨_, hin, rfl⟩ | ⟨hc', _, _⟩
+    · simp only [cancelMeasure, hp', hpend, hin, List.length_cons]; omega
     · rw [hc] at hc'; cases hc'
   | openSession i =>
     obtain ⟨ss, f, _, _, _, hc', _⟩ := dstep_openSession_inv h
@@ -157,7 +259,16 @@ theorem dstep_cancelMeasure {s s' : DSt} {l : DLabel} (h : dstep c s l = some s'
     obtain ⟨ss, hp', hss, _, _, _, rfl⟩ := dstep_finish_inv h
     have : (s.inflight.filter (fun p => p.1 ≠ i)).length < s.inflight.length :=
       List.length_filter_lt_length_iff_exists.mpr ⟨(i, ss), sessionsOf_mem hss, by simp⟩
+    have := openFirst_filter_le [] i s.inflight
     simp only [cancelMeasure, hp']; omega
+  | closeSession i k =>
+    obtain ⟨ss, hp', hss, hk, rfl⟩ := dstep_closeSession_inv h
+    have hlt : (ss.filter (fun x => x ≠ k)).length < ss.length :=
+      List.length_filter_lt_length_iff_exists.mpr ⟨k, hk, by simp⟩
+    have := openFirst_setSessions_lt (seen := []) (by simp) hlt s.inflight hss
+    have hlen : (setSessions s.inflight i (ss.filter (fun x => x ≠ k))).length = s.inflight.length := by
+      unfold setSessions; rw [List.length_map]
+    simp only [cancelMeasure, hp', hlen]; omega
   | signal => obtain ⟨_, hc', _⟩ := dstep_signal_inv h; rw [hc] at hc'; cases hc'
   | beginDrop =>
     obtain ⟨hp', _, _, rfl⟩ := dstep_beginDrop_inv h
